@@ -212,8 +212,10 @@ def judge_cases(prop, cases, workdir, shard_size=400, timeout=900):
             f.write("Definition bad_spec := Eval vm_compute in bad_idx %s.spec cases.\n" % mod)
             f.write("Definition n_nontrivial := Eval vm_compute in count_true %s.nontrivial cases.\n" % mod)
             f.write("Print bad_agree.\nPrint bad_spec.\nPrint n_nontrivial.\n")
+            if getattr(prop, "HAS_RELAXED", False):
+                f.write("Definition bad_relaxed := Eval vm_compute in bad_idx %s.spec_relaxed cases.\nPrint bad_relaxed.\n" % mod)
         procs.append((k, vpath))
-    res = {"bad_agree": [], "bad_spec": [], "nontrivial": 0, "error": None}
+    res = {"bad_agree": [], "bad_spec": [], "bad_relaxed": [], "nontrivial": 0, "error": None}
     # run shards in parallel, bounded
     running = []
     pending = list(procs)
@@ -252,6 +254,12 @@ def judge_cases(prop, cases, workdir, shard_size=400, timeout=900):
         res["bad_agree"] += [base + i for i in ba]
         res["bad_spec"] += [base + i for i in bs]
         res["nontrivial"] += nt[0] if nt else 0
+        if getattr(prop, "HAS_RELAXED", False):
+            br = parse_list(out, "bad_relaxed")
+            if br is None:
+                res["error"] = "could not parse bad_relaxed for cases_%d.v" % k
+                return res
+            res["bad_relaxed"] += [base + i for i in br]
     return res
 
 
@@ -403,7 +411,7 @@ def run_and_judge(prop, tier, seed, workdir, phase, extra_args=None):
             continue
         seen.add(h)
         uniq.append(c)
-    verdict = {"bad_agree": [], "bad_spec": [], "nontrivial": 0, "error": None}
+    verdict = {"bad_agree": [], "bad_spec": [], "bad_relaxed": [], "nontrivial": 0, "error": None}
     if uniq:
         verdict = judge_cases(prop, uniq, workdir,
                               shard_size=getattr(prop, "SHARD", 400),
@@ -498,6 +506,8 @@ def do_check(pid, tier, replay):
         for i in spec_fail:
             c = uniq[i]
             kf = next((f for f in kfs if matches_finding(c, f)), None)
+            if kf and i in v.get("bad_relaxed", []):
+                kf = None  # fails for more than the listed finding
             if kf:
                 line = "KNOWN-FINDING: property=%s %s" % (pid, kf.get("what", ""))
                 if line not in known_lines:
@@ -521,7 +531,8 @@ def do_check(pid, tier, replay):
                     sres = run_and_judge(prop, tier, seed + 7919 * (r + 1), workdir, "search")
                     searched += len(sres["uniq"])
                     sbad = [i for i in sres["verdict"]["bad_spec"]
-                            if not any(matches_finding(sres["uniq"][i], f) for f in kfs)]
+                            if i in sres["verdict"].get("bad_relaxed", [])
+                            or not any(matches_finding(sres["uniq"][i], f) for f in kfs)]
                     if sbad:
                         found = smallest(sres["uniq"], sbad)
                         break
